@@ -6,7 +6,7 @@ from ..enumcheck import enum_check, enum_pass, enum_replay
 PROP = "C02"
 HARNESS = "c01_codec"
 RULE = ("every registered parser (84 entry points; the six parsers without a type check -- message, presence, generic IQ, data form, stanza "
-        "error, stream features -- are additionally applied to EVERY element) x every document it admits out of the corpus (751 seeds) and "
+        "error, stream features -- are additionally applied to EVERY element) x every document it admits out of the corpus (762 seeds) and "
         "its k=1 hostile mutation closure: delete / duplicate / swap each element, move it under a sibling, re-namespace it, empty it, "
         "replace leaf text by 'bogus', insert every child element this kind of parent has anywhere else in the corpus (grammar-aware "
         "transplant), drop each attribute or set it to '', '-1', a 21-digit number, 'abc', 'bogus', 4 KiB (thorough 64 KiB) of 'a', and "
